@@ -236,6 +236,9 @@ def mk(op, *a):
         if a[0].id > a[1].id:
             a = [a[1], a[0]]
     elif op == 'div':
+        if isc(a[1]) and a[1].v == 0:
+            # the traced code divides by a quantity that IS zero (not merely may be): inf/NaN in the real run, never a real number
+            raise ZeroDivisionError('the traced code divides by the constant 0')
         if a[1] is ONE:
             return a[0]
         if a[1] is MONE:
